@@ -224,3 +224,128 @@ class DerivedCall(Contract):
                 ("other_keywords_are_bound_into_the_metric", BoolVal(isinstance(metric, Abstract) and metric.tag == "partial" and metric.fn is self.fn and same(metric.bound, bound_expected))),
                 ("dispatch_on_the_transform", BoolVal(self.agg[0] == self.transform and isinstance(value, Abstract) and value.tag == "aggregate")),
                 ("method_goes_to_the_transform_only", BoolVal(same(self.agg[1], want_tp) and not self.agg[2]))]
+
+
+DRF = "fairlearn/metrics/_disaggregated_result.py"
+
+
+class ApplyToDataframe(Contract):
+    """apply_to_dataframe(data, metric_functions): one entry per metric name, each the metric applied to the SAME frame `data`."""
+    source, function = DRF, "apply_to_dataframe"
+
+    def __init__(self, n_metrics):
+        self.k = n_metrics
+        self.variant = f"[{n_metrics} metric(s)]"
+
+    def params(self, eng, st):
+        self.data = Abstract("frame", name="group_rows")
+        self.fns = {f"m{i}": Abstract("amf", idx=i) for i in range(self.k)}
+        st.env.update({"data": self.data, "metric_functions": PyDict(self.fns), "include_groups": False})
+
+    def on_call(self, eng, st, node, name, recv, args, kwargs):
+        if name == "$call" and isinstance(recv, Abstract) and recv.tag == "amf":
+            return Abstract("value", of=recv, on=args[0] if args else None)
+        if name == "pandas.Series":
+            if args and isinstance(args[0], PyDict):
+                return Abstract("series_of", d=dict(args[0].d))
+            return Abstract("series_of", d={})
+        return NotImplemented
+
+    def post(self, eng, st, status, value):
+        ok = status == "return" and isinstance(value, Abstract) and value.tag == "series_of" and list(value.d.keys()) == list(self.fns.keys()) and all(
+            isinstance(v, Abstract) and v.tag == "value" and v.of is self.fns[k] and v.on is self.data for k, v in value.d.items())
+        return [("one_entry_per_metric_each_evaluated_on_the_given_rows", BoolVal(bool(ok)))]
+
+
+class ApplyFunctions(Contract):
+    """DisaggregatedResult._apply_functions relative to the assumed pandas contracts (groupby(keys).apply(f) evaluates f on the rows of every observed key
+    combination, keys sorted; reindex(product) adds the unobserved combinations as NaN rows and keeps the others)."""
+    source, function = DRF, "DisaggregatedResult._apply_functions"
+
+    def __init__(self, names):
+        self.names = names
+        self.variant = f"[grouping_names={names}]"
+
+    def params(self, eng, st):
+        self.data, self.fns = Abstract("frame", name="data"), Abstract("fns")
+        st.env.update({"data": self.data, "annotated_functions": self.fns, "grouping_names": None if self.names is None else PyList(list(self.names))})
+
+    def on_call(self, eng, st, node, name, recv, args, kwargs):
+        if name == "apply_to_dataframe":
+            return Abstract("whole", data=args[0] if args else None, fns=kwargs.get("metric_functions"))
+        if name == "groupby" and recv is self.data:
+            return Abstract("grouped", by=args[0] if args else None)
+        if name == "apply" and isinstance(recv, Abstract) and recv.tag == "grouped":
+            f = args[0] if args else None
+            return Abstract("per_group", by=recv.by, f=getattr(getattr(f, "node", None), "name", None), fns=kwargs.get("metric_functions"), include=kwargs.get("include_groups"))
+        if name == "numpy.unique" and args and isinstance(args[0], Abstract) and args[0].tag == "col":
+            return Abstract("observed_values", col=args[0].name)
+        if name == "pandas.MultiIndex.from_product":
+            return Abstract("product_index", levels=args[0] if args else None, names=kwargs.get("names"))
+        if name == "reindex" and isinstance(recv, Abstract) and recv.tag == "per_group":
+            return Abstract("reindexed", of=recv, index=kwargs.get("index"))
+        return NotImplemented
+
+    def on_subscript(self, eng, st, node, base, index):
+        if base is self.data and isinstance(index, str):
+            return Abstract("col", of=base, name=index)
+        return NotImplemented
+
+    def post(self, eng, st, status, value):
+        if status != "return":
+            return [("no_exception", BoolVal(False))]
+        names = self.names
+        if not names:
+            return [("without_grouping_the_metrics_are_evaluated_on_all_rows", BoolVal(isinstance(value, Abstract) and value.tag == "whole" and value.data is self.data and value.fns is self.fns))]
+        pg = value.of if (isinstance(value, Abstract) and value.tag == "reindexed") else value
+        ok_group = isinstance(pg, Abstract) and pg.tag == "per_group" and isinstance(pg.by, PyList) and pg.by.items == list(names) and pg.f == "apply_to_dataframe" \
+            and pg.fns is self.fns and pg.include is False
+        out = [("metrics_evaluated_on_the_rows_of_every_observed_combination_of_the_grouping_columns", BoolVal(bool(ok_group)))]
+        if len(names) == 1:
+            out.append(("single_feature_index_is_the_observed_values", BoolVal(value is pg)))
+        else:
+            ix = getattr(value, "index", None)
+            lv = getattr(ix, "levels", None)
+            ok = isinstance(value, Abstract) and value.tag == "reindexed" and isinstance(ix, Abstract) and ix.tag == "product_index" and isinstance(lv, PyList) \
+                and [getattr(x, "col", None) for x in lv.items] == list(names) and all(isinstance(x, Abstract) and x.tag == "observed_values" for x in lv.items) \
+                and isinstance(ix.names, PyList) and ix.names.items == list(names)
+            out.append(("several_features_are_reindexed_to_the_product_of_observed_values_in_level_order", BoolVal(bool(ok))))
+        return out
+
+
+class Create(Contract):
+    source, function = DRF, "DisaggregatedResult.create"
+
+    def __init__(self, has_control):
+        self.has_control = has_control
+        self.variant = f"[control={has_control}]"
+
+    def params(self, eng, st):
+        self.a = {"data": Abstract("data"), "annotated_functions": Abstract("fns"), "sensitive_feature_names": PyList(["s1", "s2"]),
+                  "control_feature_names": PyList(["c1"]) if self.has_control else None}
+        st.env.update(self.a)
+        self.calls = []
+
+    def on_attr(self, eng, st, node, base, attr):
+        if isinstance(base, Abstract) and base.tag == "class" and attr == "_apply_functions":
+            return Abstract("libfunc", name="DisaggregatedResult._apply_functions")
+        return NotImplemented
+
+    def on_call(self, eng, st, node, name, recv, args, kwargs):
+        if name == "DisaggregatedResult._apply_functions":
+            gn = kwargs.get("grouping_names")
+            self.calls.append((kwargs.get("data"), kwargs.get("annotated_functions"), None if gn is None else list(gn.items)))
+            return Abstract("applied", idx=len(self.calls) - 1)
+        if name == "DisaggregatedResult":
+            return Abstract("result", overall=args[0], by_group=args[1])
+        return NotImplemented
+
+    def post(self, eng, st, status, value):
+        ok = status == "return" and isinstance(value, Abstract) and value.tag == "result" and len(self.calls) == 2
+        if not ok:
+            return [("builds_overall_and_by_group", BoolVal(False))]
+        o, b = self.calls[value.overall.idx], self.calls[value.by_group.idx]
+        cf = ["c1"] if self.has_control else None
+        same = lambda c: c[0] is self.a["data"] and c[1] is self.a["annotated_functions"]
+        return [("overall_is_grouped_by_the_control_features_only", BoolVal(same(o) and o[2] == cf)),
+                ("by_group_is_grouped_by_control_then_sensitive_features", BoolVal(same(b) and b[2] == (cf or []) + ["s1", "s2"]))]
